@@ -142,7 +142,7 @@ def run(repo, tier):
                        '__str__ / __repr__ reached through string formatting are not followed',
                        'the reader recognises `include_bytes` lines by their raw prefix and the parser by their first token: the argument that the '
                        'size token is always the reader\'s own integer relies on both selecting the same lines']
-    it = Interp(repo.asm)
+    it = Interp(repo.asm, source_text=repo.text.get('bronzebeard/asm.py'))
     for anchor in (ENTRY,):
         if anchor not in it.funcs:
             raise AnalysisError('anchor vanished: {}'.format(anchor))
